@@ -81,7 +81,9 @@ class MediaBase(BaseWorld):
     def __init__(self, spec, ch, cfg, ops, **kw):
         super().__init__(spec, ch, cfg, ops, **kw)
         fakes.patch_dtls_timers()
-        for cls in (dtlsmod.RTCDtlsTransport, rxmod.RTCRtpReceiver):
+        # objects kept in sets by aiortc (RtpRouter recipients, the peer connection's transports): their hash
+        # is a construction serial, so that set iteration is a function of creation order, not of addresses
+        for cls in (dtlsmod.RTCDtlsTransport, rxmod.RTCRtpReceiver, txmod.RTCRtpSender):
             fakes.SerialHash.install(cls)
             cls._sim_serial_counter["n"] = 0
         self.fabric = fakes.IceFabric(self.loop, ch, spec["seed_int"])
@@ -585,6 +587,9 @@ class FakeRtpReceiver:
     def __init__(self, world, side):
         self.world, self.side = world, side
 
+    def __hash__(self):
+        return 10 + ord(self.side)
+
     def _handle_disconnect(self):
         self.world.got[self.side].append(("disconnect",))
 
@@ -598,6 +603,9 @@ class FakeRtpReceiver:
 class FakeRtpSender:
     def __init__(self, world, side, ssrc):
         self.world, self.side, self._ssrc = world, side, ssrc
+
+    def __hash__(self):
+        return 20 + ord(self.side)
 
     async def _handle_rtcp_packet(self, packet):
         self.world.on_got(self.side, "rtcp-s", packet)
@@ -619,6 +627,7 @@ class DtlsWorld(MediaBase):
         super().__init__(spec, ch, cfg, ops)
         fakes.SerialHash.install(FakeRtpReceiver) if False else None
         p = Profile.from_json(cfg["net"])
+        p.flip_only = True
         clean = Profile(base=p.base, jitter=p.jitter)
         for key in (("A", "B"), ("B", "A")):
             self.fabric.class_profiles[key] = {"dtls-hs": Profile(base=p.base + cfg.get("hs_extra_delay", 0.0)),
